@@ -176,7 +176,7 @@ def write(s, directory, as_object=False):
     return ",".join(names)
 
 
-def compiler_log(s, path, rng, allow_zero_total=False):
+def compiler_log(s, path, rng, allow_zero_total=False, force=None):
     """one ideal-cycle table covering the kernel names of the scenario (some zero, some unlisted).
     A table whose cycles are all zero makes the tool divide by zero (fingerprint similarity); it is produced only
     on request (C02/C11 treat that case explicitly)."""
@@ -185,15 +185,17 @@ def compiler_log(s, path, rng, allow_zero_total=False):
     lines = ["[DeepRT] ===== Perf BEGIN =====", "====== Perf Summary ======", "~~~~ Ideal/Total Cycles ~~~~",
              "-" * 91, "Name" + " " * 76 + "Ideal Cy.", "-" * 91]
     table, total = {}, 0
+    if force == "empty":
+        names = []
     for n in names:
-        if rng.random() < 0.2:
+        if rng.random() < 0.2 and force is None:
             continue
-        cyc = 0 if rng.random() < 0.25 else rng.randrange(1, 200000)
+        cyc = 0 if (rng.random() < 0.25 or force == "all_zero") else rng.randrange(1, 200000)
         cat = rng.choice(cats)
         table[n] = (cyc, cat)
         total += cyc
         lines.append(f"{n}-{cat}".ljust(80) + f"{cyc}".ljust(15))
-    if total == 0 and not allow_zero_total:
+    if total == 0 and not allow_zero_total and force is None:
         n = names[0] if names else "add_11"
         table[n] = (4096, cats[0])
         total = 4096
